@@ -61,11 +61,18 @@ func (x *Exec) atReturn(st *State, fr *Frame, res []Value, v *ssa.Return) {
 		names = append(names, h)
 	}
 	sort.Strings(names)
+	wholeOK := map[string]bool{}
+	for _, h := range ct.ModHeaps {
+		wholeOK[h] = true
+	}
 	for _, h := range names {
 		srt := x.heapSorts[h]
 		cur := st.heaps[h]
 		pre := fr.pre.lookup(x, h, srt)
 		if cur == pre {
+			continue
+		}
+		if base, _, _ := strings.Cut(h, "#"); wholeOK[h] || wholeOK[base] {
 			continue
 		}
 		r := b.Var("r!f", SInt)
